@@ -623,9 +623,12 @@ func (m *Manager) readIntoTable(id uint64, reader io.Reader) error {
 
 			batchCmd.Table = cmd.Table
 			batchCmd.LeaderIndex = cmd.LeaderIndex
+			// Every record belongs to a batch, including the one that reaches the size threshold.
+			if cmd.Kv != nil {
+				batchCmd.Batch = append(batchCmd.Batch, cmd.Kv)
+			}
 
 			if uint64(estimatedSize) < m.cfg.Table.MaxInMemLogSize/2 {
-				batchCmd.Batch = append(batchCmd.Batch, cmd.Kv)
 				continue
 			}
 		}
